@@ -20,125 +20,32 @@ func checkC14(c *Ctx) {
 	c.Rule("C14.R5", "the clipping helper Clip goes through converts every contour of the subject and every polygon of the clipping operand, each ring and vertex at its own index (no member of either operand is skipped), and closes result rings with exactly one vertex")
 	c.Rule("C14.R4", "Clip hands every line to the clipper: a conditional return before the clipper call, or a skipped member, is allowed only under a condition implying that the closed bounding boxes of the line and of the polygon share no point (!Overlaps), and such a return yields an empty result")
 	info := c.P.Pkg("geom").TypesInfo
-	a := &c01{c: c, info: info}
+	m := newClipModel(c)
+	if !m.ok() {
+		c.Unk("C14.R1", "geom#clip-model", token.NoPos, "geometry or clipper types do not resolve")
+		return
+	}
+	m.runClip("C14.R1", "C14.R2")
 	for _, tn := range []string{"LineString", "MultiLineString"} {
-		m := c.P.Method("geom", tn, "Clip")
-		fd := c.P.Decl(m)
+		mm := c.P.Method("geom", tn, "Clip")
+		fd := c.P.Decl(mm)
 		if fd == nil {
-			c.Unk("C14.R1", "geom."+tn+".Clip", token.NoPos, "API anchor does not resolve")
 			continue
 		}
-		name := c.P.FuncName(m)
-		recv := receiverVar(info, fd)
-		param := paramVars(info, fd.Type)[0]
-		sc := newFnScope(info, fd.Body)
-		// --- R1
-		out := map[string]bool{}
-		var why []string
-		a.opsReaching(m, "", "Clip", 0, out, &why)
-		msg := ""
-		if len(why) > 0 {
-			msg = why[0]
-		} else if len(out) != 1 || !out["CLIPLINE"] {
-			msg = "the clipper is not called in CLIPLINE mode"
-		}
-		// the helper call: X.op(param, CLIPLINE)
-		var opCall *ast.CallExpr
-		ast.Inspect(fd.Body, func(n ast.Node) bool {
-			if call, ok := n.(*ast.CallExpr); ok {
-				if f := callee(info, call); f != nil && c.P.Decl(f) != nil {
-					sig := f.Type().(*types.Signature)
-					for i := 0; i < sig.Params().Len(); i++ {
-						if isPolyclipOp(sig.Params().At(i).Type()) {
-							opCall = call
-						}
-					}
-				}
-			}
-			return true
-		})
-		var result types.Object
-		if opCall == nil {
-			if msg == "" {
-				msg = "call into the clipping helper not found"
-			}
-		} else {
-			sel, _ := unparen(opCall.Fun).(*ast.SelectorExpr)
-			hasParam := false
-			for _, arg := range opCall.Args {
-				if objOf(info, arg) == param {
-					hasParam = true
-				}
-			}
-			if !hasParam && msg == "" {
-				msg = "the polygon parameter is not the clipping operand"
-			}
-			if sel != nil && msg == "" {
-				if m2 := c14subject(info, sc, fd, sel.X, recv); m2 != "" {
-					msg = "subject operand: " + m2
-				}
-			}
-			// result variable
-			for _, p := range enclosing(fd.Body, opCall) {
-				if as, ok := p.(*ast.AssignStmt); ok && len(as.Lhs) == 1 {
-					result = objOf(info, as.Lhs[0])
-				}
-			}
-		}
-		if msg != "" {
-			c.Bad("C14.R1", name, fd.Pos(), "%s", msg)
-		} else {
-			c.OK("C14.R1", name, fd.Pos(), "line(s) → subject contours, parameter → clipping operand, CLIPLINE")
-		}
-		// --- R4
-		c14prefilters(c, info, sc, fd, name, recv, param, opCall)
-		// --- R2
-		msg = c14strip(info, sc, fd, result)
-		if msg != "" {
-			c.Bad("C14.R2", name, fd.Pos(), "%s", msg)
-		} else {
-			c.OK("C14.R2", name, fd.Pos(), "every piece is result[i][0:len-1]")
-		}
-	}
-	// the converter that closes rings (shared with C01.R3)
-	if f := c.P.Func("geom", "polyClipToPolygon"); f != nil && c.P.Decl(f) != nil {
-		c14closer(c, info, f)
-	} else {
-		// discover: the function wrapping Construct's result
-		found := false
-		for _, fn := range c.P.RepoFuncs() {
-			fd := c.P.Decl(fn)
-			if c.P.DeclPkg(fn) != c.P.Pkg("geom") {
-				continue
-			}
-			ast.Inspect(fd.Body, func(n ast.Node) bool {
-				call, ok := n.(*ast.CallExpr)
-				if !ok || len(call.Args) != 1 || found {
-					return true
-				}
-				if inner, ok := unparen(call.Args[0]).(*ast.CallExpr); ok && isConstruct(callee(info, inner)) {
-					if f := callee(info, call); f != nil && c.P.Decl(f) != nil {
-						c14closer(c, info, f)
-						found = true
-					}
-				}
-				return true
-			})
-		}
-		if !found {
-			c.Unk("C14.R2", "geom#clipper-result-converter", token.NoPos, "converter not found")
-		}
+		c14prefilters(c, info, newFnScope(info, fd.Body), fd, c.P.FuncName(mm), receiverVar(info, fd), paramVars(info, fd.Type)[0], nil)
 	}
 	c14dep(c)
-	// R5: the shared clipping helper (C01.R2/R3's analysis, filed here)
+	// R5: the set operations' plumbing through the same helper (model evaluation shared with C01)
+	c.Alias("C01.R1", "C14.R5")
 	c.Alias("C01.R2", "C14.R5")
 	c.Alias("C01.R3", "C14.R5")
-	a.r2r3()
+	m.runSetOps("C01.R1", "C01.R2", "C01.R3")
+	c.Alias("C01.R1", "")
 	c.Alias("C01.R2", "")
 	c.Alias("C01.R3", "")
 	c.Floor("C14.R5", 3)
 	c.Floor("C14.R1", 2)
-	c.Floor("C14.R2", 3)
+	c.Floor("C14.R2", 2)
 	c.Floor("C14.R3", 1)
 	c.Floor("C14.R4", 2)
 }
@@ -295,10 +202,30 @@ func c14prefilters(c *Ctx, info *types.Info, sc *fnScope, fd *ast.FuncDecl, name
 			}
 			n++
 			just := false
-			for _, at := range conjuncts(is.Cond, br.truth) {
+			atoms := conjuncts(is.Cond, br.truth)
+			allLen := len(atoms) > 0
+			for _, at := range atoms {
 				if disjoint(at) {
 					just = true
 				}
+				// an emptiness / length test of an operand (an empty operand clips to nothing)
+				isLen := false
+				if b, ok := unparen(at.E).(*ast.BinaryExpr); ok {
+					if lenArg(info, b.X) != nil || lenArg(info, b.Y) != nil {
+						if _, okc := constInt(info, b.X); okc {
+							isLen = true
+						}
+						if _, okc := constInt(info, b.Y); okc {
+							isLen = true
+						}
+					}
+				}
+				if !isLen {
+					allLen = false
+				}
+			}
+			if allLen {
+				continue // decided by the model evaluation (C14.R1), which includes empty and short operands
 			}
 			if !just {
 				bad = true
